@@ -1,6 +1,7 @@
 package main
 
 import (
+	"encoding/json"
 	"fmt"
 	"os"
 	"strings"
@@ -342,7 +343,13 @@ func runProperty(res *Result, prop, tier string, seed uint64, driver, replay str
 	distinct := map[string]bool{}
 	total := 0
 	opCounts := map[string]int{}
+	// replay: the generator is deterministic in (seed, tier, batch), so the cases of a replay file
+	// are regenerated by running the same batches and keeping only the recorded case ids
+	only, onlyBatches := replayCases(replay)
 	for b := 0; b < batches; b++ {
+		if only != nil && !onlyBatches[b] {
+			continue
+		}
 		g := NewGen(seed + uint64(b)*1000003)
 		g.maxDepth = depth
 		cases := propCases(res, prop, tier, g, n, b)
@@ -352,6 +359,15 @@ func runProperty(res *Result, prop, tier string, seed uint64, driver, replay str
 		}
 		for _, c := range cases {
 			c.ID = fmt.Sprintf("b%d.%s", b, c.ID)
+		}
+		if only != nil {
+			var keep []*Case
+			for _, c := range cases {
+				if only[c.ID] {
+					keep = append(keep, c)
+				}
+			}
+			cases = keep
 		}
 		total += len(cases)
 		processBatch(res, prop, driver, cases, distinct)
@@ -448,4 +464,51 @@ func processBatch(res *Result, prop, driver string, cases []*Case, distinct map[
 			res.Samples = append(res.Samples, s)
 		}
 	}
+}
+
+// replayCases reads the case ids recorded in a replay file written by the check (nil = no
+// restriction: the file names no generated case, the whole tier is run again).
+func replayCases(path string) (map[string]bool, map[int]bool) {
+	if path == "" {
+		return nil, nil
+	}
+	bs, err := os.ReadFile(path)
+	if err != nil {
+		fmt.Fprintln(os.Stderr, "replay:", err)
+		os.Exit(2)
+	}
+	var f struct {
+		Violations []struct {
+			Failures []struct {
+				Case string `json:"case"`
+			} `json:"failures"`
+			Mismatches []struct {
+				Case string `json:"case"`
+			} `json:"first"`
+		} `json:"violations"`
+	}
+	if err := json.Unmarshal(bs, &f); err != nil {
+		fmt.Fprintln(os.Stderr, "replay:", err)
+		os.Exit(2)
+	}
+	only, bset := map[string]bool{}, map[int]bool{}
+	add := func(id string) {
+		var b int
+		if _, err := fmt.Sscanf(id, "b%d.", &b); err == nil {
+			only[id] = true
+			bset[b] = true
+		}
+	}
+	for _, v := range f.Violations {
+		for _, x := range v.Failures {
+			add(x.Case)
+		}
+		for _, x := range v.Mismatches {
+			add(x.Case)
+		}
+	}
+	if len(only) == 0 {
+		return nil, nil
+	}
+	return only, bset
 }
